@@ -3,7 +3,7 @@
 From Coq Require Import List NArith ZArith Bool String.
 From ApiFu Require Import Base.Sexp.
 From ApiFu Require Syn.Ast Vld.Ast Val.Values ExeA.ArgData ExeA.ArgArgs ExeA.ArgModel ExeA.ArgSpec ExeA.ArgHyps.
-From ApiFu Require Vld.ValidatorModel Pipe.CostCompose.
+From ApiFu Require Vld.ValidatorModel Pipe.CostCompose Pipe.SubscribeCompose Pipe.InvariantProofs Pipe.InvariantBridge.
 From ApiFu Require Import Pipe.PipelineModel Pipe.PipelineProofs Pipe.Convert Pipe.Compose Pipe.SchemaAgree Pipe.ComposeProofs Pipe.ComposeCheck.
 Import ListNotations.
 Open Scope string_scope.
@@ -54,6 +54,10 @@ Definition ex_ES : ExeA.ArgData.schema :=
 
 Example ex_schema_hypothesis : schema_accepted ex_ES = true.
 Proof. vm_compute. reflexivity. Qed.
+(** the schema hypotheses of C03_pipeline_response are satisfiable *)
+Example ex_es_wf : es_wf ex_ES = true. Proof. vm_compute. reflexivity. Qed.
+Example ex_vschema_wf : Pipe.InvariantBridge.vschema_wf ex_VS = true. Proof. vm_compute. reflexivity. Qed.
+Example ex_cost_schema_accepted : Pipe.CostCompose.cost_schema_accepted ex_ES = true. Proof. vm_compute. reflexivity. Qed.
 Example ex_schemas_agree : schemas_agree ex_VS ex_ES = true.
 Proof. vm_compute. reflexivity. Qed.
 
@@ -113,10 +117,12 @@ Example ex_arguments :
   = PExecuted (Some (ExeA.ArgData.JObj [ (n "a", ExeA.ArgData.JInt 20); (n "b", ExeA.ArgData.JInt 50); (n "c", ExeA.ArgData.JInt 20) ])) [].
 Proof. vm_compute. reflexivity. Qed.
 
-(** a nullable variable with a default, explicitly null: outside C01's hypotheses, still answered *)
+(** a nullable variable with a default, explicitly null: the condition has no boolean value; the
+    selection is left out with an error (C01's dirs-free theorems cover the request) *)
 Example ex_unevaluable :
-  exists r, run_ex "query A($b: Boolean = true) { i @skip(if: $b) nn }" "" [(n "b", Val.Values.JNull)] = PUnevaluable r.
-Proof. eexists. vm_compute. reflexivity. Qed.
+  exists data e es, run_ex "query A($b: Boolean = true) { i @skip(if: $b) nn }" "" [(n "b", Val.Values.JNull)]
+                    = PExecuted data (e :: es).
+Proof. eexists. eexists. eexists. vm_compute. reflexivity. Qed.
 
 (** the hypothesis of C03_pipeline_total is satisfiable, and its conclusion is the first disjunct *)
 Example ex_total_instance :
@@ -156,6 +162,34 @@ Proof. vm_compute. reflexivity. Qed.
 Example ex_cost_syntax : cost_ex "{ i o { i }" 1 (-1) = Pipe.CostCompose.CSyntax.
 Proof. vm_compute. reflexivity. Qed.
 
+(** ** graphql.Subscribe inside the composition: the same schema with Query also as the subscription root *)
+Definition ex_VS_sub : Vld.Ast.schema :=
+  {| Vld.Ast.s_types := Vld.Ast.s_types ex_VS; Vld.Ast.s_query := n "Query"; Vld.Ast.s_mutation := None;
+     Vld.Ast.s_subscription := Some (n "Query"); Vld.Ast.s_directives := Vld.Ast.s_directives ex_VS;
+     Vld.Ast.s_meta := []; Vld.Ast.s_impls := [] |}.
+Definition ex_ES_sub : ExeA.ArgData.schema :=
+  {| ExeA.ArgData.types := ExeA.ArgData.types ex_ES; ExeA.ArgData.query := n "Query"; ExeA.ArgData.mutation := None;
+     ExeA.ArgData.subscription := Some (n "Query");
+     ExeA.ArgData.s_inputs := ExeA.ArgData.s_inputs ex_ES; ExeA.ArgData.s_dt := ExeA.ArgData.s_dt ex_ES;
+     ExeA.ArgData.s_argdefs := ExeA.ArgData.s_argdefs ex_ES |}.
+Definition sub_ex (q : string) (raw : list (ExeA.ArgData.name * Val.Values.jval)) : Pipe.SubscribeCompose.sub_result :=
+  Pipe.SubscribeCompose.subscribe_model ex_VS_sub [] ex_ES_sub (n q) [] raw ex_W.
+Example ex_sub_source : sub_ex "subscription { f(k: 2) }" [] = Pipe.SubscribeCompose.SubSource (int_ 20).
+Proof. vm_compute. reflexivity. Qed.
+Example ex_sub_no_outcome : sub_ex "subscription { f(k: 3) }" [] = Pipe.SubscribeCompose.SubError [ExeA.ArgData.PKey (n "f")].
+Proof. vm_compute. reflexivity. Qed.
+Example ex_sub_empty_set : sub_ex "subscription { i @skip(if: true) }" [] = Pipe.SubscribeCompose.SubError [].
+Proof. vm_compute. reflexivity. Qed.
+Example ex_sub_not_a_subscription : sub_ex "{ i }" [] = Pipe.SubscribeCompose.SubError [].
+Proof. vm_compute. reflexivity. Qed.
+Example ex_sub_invalid : exists e es, sub_ex "subscription { i nn }" [] = Pipe.SubscribeCompose.SubInvalid e es.
+Proof. eexists. eexists. vm_compute. reflexivity. Qed.
+(** one event of the same subscription, through Execute *)
+Example ex_sub_event :
+  pipeline_model ex_VS_sub [] ex_ES_sub (n "subscription { f(k: 2) }") [] [] ex_W
+  = PExecuted (Some (ExeA.ArgData.JObj [ (n "f", ExeA.ArgData.JInt 20) ])) [].
+Proof. vm_compute. reflexivity. Qed.
+
 (** ** round 1: the glue over stage verdicts *)
 Example executed_with_field_error :
   no_crash (Returned 0 : parse_out) /\ no_crash (Returned 0 : validate_out) /\
@@ -181,3 +215,20 @@ Proof. eexists. eexists. split; [vm_compute; reflexivity|]. split; [vm_compute; 
 Example ex_scalar_condition_rejected :
   exists e es, run_ex "{ i ... on Int { i } }" "" [] = PInvalid e es.
 Proof. eexists. eexists. vm_compute. reflexivity. Qed.
+
+(** [es_wf] is a real check: an object type whose field is covariant with the field of the interface
+    it declares passes; one whose field returns a type that is not a possible type of the
+    interface's field type does not (ObjectType.satisfyInterface refuses such a schema) *)
+Definition ex_ES_iface (child_of_A : string) : ExeA.ArgData.schema :=
+  {| ExeA.ArgData.types :=
+       [ (n "Int", ExeA.ArgData.NScalar ExeA.ArgData.KInt);
+         (n "Query", ExeA.ArgData.NObject [ (n "node", ExeA.ArgData.StNamed (n "Node")) ] []);
+         (n "Node", ExeA.ArgData.NInterface [ (n "child", ExeA.ArgData.StNamed (n "Node")) ]);
+         (n "A", ExeA.ArgData.NObject [ (n "child", ExeA.ArgData.StNamed (n child_of_A)) ] [n "Node"]);
+         (n "B", ExeA.ArgData.NObject [ (n "i", ExeA.ArgData.StNamed (n "Int")) ] []) ];
+     ExeA.ArgData.query := n "Query"; ExeA.ArgData.mutation := None; ExeA.ArgData.subscription := None;
+     ExeA.ArgData.s_inputs := []; ExeA.ArgData.s_dt := []; ExeA.ArgData.s_argdefs := [] |}.
+Example ex_es_wf_covariant : es_wf (ex_ES_iface "A") = true /\ es_wf (ex_ES_iface "Node") = true.
+Proof. split; vm_compute; reflexivity. Qed.
+Example ex_es_wf_not_covariant : es_wf (ex_ES_iface "B") = false.
+Proof. vm_compute. reflexivity. Qed.
